@@ -19,6 +19,7 @@ FIXED = {  # commit subject prefix -> (property, key, what failed)
  "fix: Trailer() no longer panics": ("C13", "trailer-badmd-panic", "trailer with undecodable -bin metadata: Trailer() panics"),
  "fix: undecodable response header metadata": ("C13", "header-badmd-hang", "first response with undecodable -bin metadata: Header() blocks forever, RecvMsg returns nil without data"),
  "fix: a unary reply without a header": ("C13", "unary-noheader-stats-nil", "unary reply without a header with a stats handler installed: nil dereference"),
+ "fix: a stream whose opening write fails": ("C14", "failed-open-leaks-registration", "NewStream whose open envelope fails in the transport write never unregisters: one registry entry leaked per failed open"),
  "fix: stream teardown unregisters before": ("C13", "teardown-rst-vs-dispatch", "transport failed, dispatch parked on the stream's full channel holds the mutex, teardown's reset write needs it: deadlock"),
 }
 KNOWN = [
